@@ -625,7 +625,7 @@ func genSchema(r *Rng, table string, o ATGenOpts) *ATSchema {
 		sc.Cols = append(sc.Cols, c)
 	}
 	if o.BigInts {
-		base := []int64{1700000000, 2147483640, 1000000000000, 1000000000000000}[r.Intn(4)]
+		base := []int64{1700000000, 2147483640, 1000000000000, 1000000000000000, 9007199254740992}[r.Intn(5)]
 		for i := 1; i < n; i++ {
 			if sc.Cols[i].Typ == 'i' {
 				sc.Cols[i].Big = base
@@ -683,7 +683,7 @@ func genVal(r *Rng, c ATCol) ATVal {
 		}
 		if r.Chance(12) {
 			// large magnitudes with tiny differences (timestamps, ids, int32 boundary); all below 2^53
-			base := []int64{1700000000, 2147483640, 1000000000000, 1000000000000000}[r.Intn(4)]
+			base := []int64{1700000000, 2147483640, 1000000000000, 1000000000000000, 9007199254740992}[r.Intn(5)]
 			return ATVal{K: 'i', I: base + int64(r.Intn(8))}
 		}
 		return ATVal{K: 'i', I: int64(r.Intn(12))}
